@@ -25,7 +25,11 @@ static unsigned char spec_hmac_padded_key_byte(const unsigned char *k0, size_t k
 
 /* v2 range: defined <=> pdu_len >= hash_len; length of the authenticated prefix */
 static int spec_pdu_v2_range_defined(size_t pdu_len, size_t hash_len) { return pdu_len >= hash_len; }
+#pragma CPROVER check push
+#pragma CPROVER check disable "unsigned-overflow"
+/* (modular; meaningful only when spec_pdu_v2_range_defined) */
 static size_t spec_pdu_v2_range_len(size_t pdu_len, size_t hash_len) { return pdu_len - hash_len; }
+#pragma CPROVER check pop
 
 /* v1 range: byte i of header || payload */
 static unsigned char spec_pdu_v1_byte(const unsigned char *hdr, size_t hdr_len, const unsigned char *pay, size_t i) {
